@@ -572,7 +572,7 @@ def run(ctx):
     rep = Report('C18', 'model_checking')
     n_ops = 2 if ctx.quick else 3
     U = 3
-    budget = 150 if ctx.quick else 1500
+    budget = 600 if ctx.quick else 3000
     units = []
     for kind in ('qset', 'linqset'):
         ops = [o for o in ALL_OPS if not (o == 'wedge' and kind != 'linqset')
